@@ -115,6 +115,7 @@ inductive Ev
   | wState (k g v : Nat) (fn : Fn)
   | switch (k g : Nat)
   | destroy (k g : Nat)
+  | touch (k g : Nat)                          -- any access to another registered field of fiber g's control block
   deriving Repr, DecidableEq, Inhabited
 
 structure St where
@@ -168,6 +169,7 @@ def Ev.wf : Ev → Bool
   | .wState k _ _ _ => k < 16
   | .switch k _ => k < 16
   | .destroy k _ => k < 16
+  | .touch k _ => k < 16
 
 /-- the transition function proper (events in range) -/
 def core (s : St) : Ev → Option St
@@ -289,6 +291,11 @@ def core (s : St) : Ev → Option St
       some { s with ctx := upd s.ctx g .dead, mst := upd s.mst k .idle }
     else none
 
+  | .touch _ g =>
+    -- an access to a field of g's control block (result, join_info, detach_state, node, scratch):
+    -- never after g was destroyed ("not touched afterwards")
+    if s.ctx g = .dead then none else some s
+
 def step (s : St) (e : Ev) : Option St := if e.wf then core s e else none
 
 def sys : Sys St Ev := { init := init, step := step }
@@ -326,6 +333,12 @@ def queueOf (s : String) : Option Nat :=
 def resultOf (s : String) : Option (Option Nat) :=
   if s = "-1" ∨ s = "-2" then some none else (fiberOf s).map some
 
+/-- `F<g>.<field>` for a field other than `state` -/
+def otherFiberCell (c : String) : Option Nat :=
+  match c.splitOn "." with
+  | [a, fld] => if fld = "state" then none else fiberOf ("@" ++ a)
+  | _ => none
+
 def stateCell (c : String) : Option Nat :=
   match c.splitOn "." with
   | [a, "state"] => fiberOf ("@" ++ a)
@@ -333,6 +346,9 @@ def stateCell (c : String) : Option Nat :=
 
 def ofRaw (r : RawEv) : Option (Option Ev) :=
   let k := r.tid
+  -- fiber_destroy itself reads the control block once more (to free the queue node) after the
+  -- stack release that the log records as `fdestroy`: that is the destroyer, not a late user
+  if r.func = "fiber_destroy" then some none else
   match r.kind, r.args with
   | "note", "spawn" :: _ => some (some .spawn)
   | "note", ["allidle"] => some (some .tick)
@@ -348,11 +364,21 @@ def ofRaw (r : RawEv) : Option (Option Ev) :=
   | "r", [c, v] =>
     match stateCell c with
     | some g => v.toNat?.map (fun v => some (.rState k g v (fnOf r.func)))
-    | none => some none
+    | none => match otherFiberCell c with
+      | some g => some (some (.touch k g))
+      | none => some none
   | "w", [c, v] =>
     match stateCell c with
     | some g => v.toNat?.map (fun v => some (.wState k g v (fnOf r.func)))
-    | none => some none
+    | none => match otherFiberCell c with
+      | some g => some (some (.touch k g))
+      | none => some none
+  | kind, c :: _ =>
+    if kind = "ld" ∨ kind = "st" ∨ kind = "xchg" ∨ kind = "cas" ∨ kind = "fadd" ∨ kind = "fsub" then
+      match otherFiberCell c with
+      | some g => some (some (.touch k g))
+      | none => some none
+    else some none
   | _, _ => some none      -- everything else belongs to the primitives' own models
 
 /-! ### idle monitor (C02, second sentence): whenever every kernel thread has gone idle
